@@ -146,6 +146,137 @@ def module_globals_digest():
 
 INF = 1 << 60
 
+import _thread  # noqa: E402
+
+_REAL_ALLOCATE = _thread.allocate_lock      # captured before any patching
+_ACTIVE = [None]                            # the scheduler of the run in progress
+
+
+class _Gate:
+    """Auto-reset event on one raw lock (the scheduler's own primitives must
+    not go through the patched threading.Lock)."""
+
+    def __init__(self):
+        self.l = _REAL_ALLOCATE()
+        self.l.acquire()
+
+    def wait(self, timeout=None):
+        if timeout is None:
+            self.l.acquire()
+            return True
+        return self.l.acquire(True, timeout)
+
+    def set(self):
+        try:
+            self.l.release()
+        except RuntimeError:
+            pass
+
+    def clear(self):
+        self.l.acquire(False)
+
+
+class SimDeadlock(Exception):
+    """Raised inside a simulated thread when every unfinished thread waits for
+    a lock: a genuine deadlock of the code under test under this schedule."""
+
+
+class SimLock:
+    """Stand-in for threading.Lock, installed before the library is imported.
+    Outside a simulated run - and for any thread that does not hold the baton -
+    it is a plain lock.  When the baton holder finds it taken, it hands the baton
+    on instead of blocking (the holder of the lock is parked and could never
+    release it otherwise), and retries when it is scheduled again."""
+
+    def __init__(self):
+        self._l = _REAL_ALLOCATE()
+
+    def acquire(self, blocking=True, timeout=-1):
+        s = _ACTIVE[0]
+        if s is not None and s.active:
+            cur = s.current
+            if cur is not None and s.idents[cur] == _thread.get_ident():
+                if self._l.acquire(False):
+                    return True
+                if not blocking:
+                    return False
+                return s.lock_wait(cur, self)
+        return self._l.acquire(blocking, timeout)
+
+    def release(self):
+        self._l.release()
+
+    def locked(self):
+        return self._l.locked()
+
+    def _at_fork_reinit(self):
+        self._l = _REAL_ALLOCATE()
+
+    __enter__ = acquire
+
+    def __exit__(self, *a):
+        self.release()
+
+
+class SimRLock:
+    def __init__(self):
+        self._lock = SimLock()
+        self._owner = None
+        self._count = 0
+
+    def acquire(self, blocking=True, timeout=-1):
+        me = _thread.get_ident()
+        if self._owner == me:
+            self._count += 1
+            return True
+        ok = self._lock.acquire(blocking, timeout)
+        if ok:
+            self._owner = me
+            self._count = 1
+        return ok
+
+    __enter__ = acquire
+
+    def release(self):
+        if self._owner != _thread.get_ident():
+            raise RuntimeError("cannot release un-acquired lock")
+        self._count -= 1
+        if not self._count:
+            self._owner = None
+            self._lock.release()
+
+    def __exit__(self, *a):
+        self.release()
+
+    def locked(self):
+        return self._lock.locked()
+
+    # threading.Condition support
+    def _is_owned(self):
+        return self._owner == _thread.get_ident()
+
+    def _release_save(self):
+        state = (self._count, self._owner)
+        self._count, self._owner = 0, None
+        self._lock.release()
+        return state
+
+    def _acquire_restore(self, state):
+        self._lock.acquire()
+        self._count, self._owner = state
+
+    def _at_fork_reinit(self):
+        self._lock._at_fork_reinit()
+        self._owner, self._count = None, 0
+
+
+def install_sim_locks():
+    """threading.Lock / threading.RLock -> cooperative stand-ins.  Must run
+    before the library under test is imported (module-level locks)."""
+    if threading.Lock is not SimLock:
+        threading.Lock = SimLock
+        threading.RLock = SimRLock
+
 
 class Sched:
     """Baton-passing scheduler.  Per-thread hot state lives in S[tid] =
@@ -158,8 +289,12 @@ class Sched:
         self.oplines = [[(o[1], o[2]) for o in (oplines or []) if o[0] == t]
                         for t in range(n)]
         self.prio = list(prio)
-        self.events = [threading.Event() for _ in range(n)]
-        self.all_done = threading.Event()
+        self.events = [_Gate() for _ in range(n)]
+        self.all_done = _Gate()
+        self.idents = [None] * n        # thread idents, set by each body
+        self.blocked = {}               # tid -> SimLock it waits for
+        self.deadlocked = False
+        self.lock_waits = 0
         self.done = [False] * n
         self.S = [[0, INF, -1, "", 0] for _ in range(n)]
         self.lacc = [0] * n             # shared accesses by each thread
@@ -239,8 +374,37 @@ class Sched:
     def pick(self):
         for t in self.prio:
             if not self.done[t]:
-                return t
+                lk = self.blocked.get(t)
+                if lk is None or not lk.locked():
+                    return t
         return None
+
+    def lock_wait(self, me, lock):
+        """The baton holder `me` found `lock` taken.  Hand the baton on (a forced
+        switch: a deterministic consequence of the schedule, not recorded as a
+        pre-emption) and retry whenever scheduled again."""
+        self.lock_waits += 1
+        while True:
+            if self.deadlocked:
+                self.blocked.pop(me, None)
+                raise SimDeadlock("every unfinished thread waits for a lock")
+            if lock._l.acquire(False):
+                self.blocked.pop(me, None)
+                return True
+            self.blocked[me] = lock
+            self.prio.remove(me)
+            self.prio.append(me)
+            nxt = self.pick()
+            if nxt is None or nxt == me:
+                self.blocked.pop(me, None)
+                raise SimDeadlock("every unfinished thread waits for a lock")
+            self.current = nxt
+            ev = self.events[me]
+            ev.clear()
+            self._arm(nxt)
+            self.events[nxt].set()
+            ev.wait()
+            self._arm(me)
 
     def _yield_to_next(self, me, why):
         """Called by the running thread `me`: drop its priority, hand over."""
@@ -262,6 +426,10 @@ class Sched:
     def finish(self, me):
         self.done[me] = True
         nxt = self.pick()
+        if nxt is None and not all(self.done):
+            # the remaining threads all wait for locks nobody will release
+            self.deadlocked = True
+            nxt = next(t for t in self.prio if not self.done[t])
         if nxt is None:
             self.active = False
             self.current = None
@@ -315,7 +483,7 @@ class Sched:
             return
         dname = container._name
         me = self.current
-        if threading.current_thread() is not self.threads[me]:
+        if me is None or self.idents[me] != _thread.get_ident():
             return      # e.g. the main thread during bookkeeping
         j = self.lacc[me] = self.lacc[me] + 1
         self.access_log.append((me, dname, kind, repr(key)))
@@ -334,7 +502,7 @@ class Sched:
         if not self.active:
             return
         me = self.current
-        if threading.current_thread() is not self.threads[me]:
+        if me is None or self.idents[me] != _thread.get_ident():
             return
         j = self.lacc[me]
         if self.acc_trig[me].get(j) == "after":
@@ -514,6 +682,7 @@ def run_threads(programs, prio, preemptions, strategy, rng_seed, oplines=None):
     use_mon = backend() == "monitoring"
 
     def body(tid):
+        sched.idents[tid] = _thread.get_ident()
         tr = None if use_mon else make_tracer(sched, tid, roots, et_file)
         sched.events[tid].wait()
         if tr is not None:
@@ -534,6 +703,7 @@ def run_threads(programs, prio, preemptions, strategy, rng_seed, oplines=None):
     traced.HOOKS.after = sched.after_access
     for t in threads:
         t.start()
+    _ACTIVE[0] = sched
     sched.active = True
     first = sched.pick()
     sched._arm(first)
@@ -542,6 +712,7 @@ def run_threads(programs, prio, preemptions, strategy, rng_seed, oplines=None):
     sched.current = first
     sched.events[first].set()
     ok = sched.all_done.wait(timeout=150)
+    _ACTIVE[0] = None
     if use_mon:
         uninstall_monitor()
     if not ok:
@@ -563,6 +734,13 @@ def ref_handler(spec):
     kind = spec[0]
     if kind == "solo":
         return {"results": run_program(spec[1])}
+    if kind == "solo_traced":
+        # the program alone, but with everything the simulator adds (recording
+        # containers, tracer, scheduler with nothing to schedule)
+        install_traced_dicts()
+        res, _ = run_threads([spec[1]], [0], [], {"kind": "explicit"}, 0,
+                             [list(o) for o in spec[2]])
+        return {"results": res[0]}
     if kind == "profile":
         # solo run under the tracer: which lines does this program execute, how often,
         # and how many shared accesses does it make
@@ -572,6 +750,7 @@ def ref_handler(spec):
         roots, et_file = traced_roots()
         use_mon = backend() == "monitoring"
         sched.threads = [threading.current_thread()]
+        sched.idents[0] = _thread.get_ident()
         sched.current = 0
         sched.active = True
         traced.HOOKS.before = sched.access
@@ -825,6 +1004,7 @@ def run_case(case, ref):
     stats.inc("shared_accesses", len(sched.access_log))
     stats.inc("fault.preemptions", len(sched.switch_log))
     stats.inc("fault.preemptions_at_shared_access", sched.windows)
+    stats.inc("fault.forced_switches_on_contended_lock", sched.lock_waits)
     for k in changed:
         stats.inc("probe.global_changed." + k)
     acc_hash = core.short_hash(repr(sched.access_log))
@@ -1055,6 +1235,7 @@ def generate(rng, tier, opts=None):
 # --------------------------------------------------------------------------
 
 def worker_init(prop, tier, opts):
+    install_sim_locks()          # before the library is imported: module-level locks
     core.import_target()
     return {"fs": ForkServer(ref_handler)}
 
@@ -1144,6 +1325,24 @@ def minimise(ctx, case, violation):
             if _fails(ctx, trial, key):
                 case = trial
     return case
+
+
+def confirm(ctx, case, violation):
+    """Instrumentation fidelity: each thread's program, run alone in a pristine
+    process *with* the recording containers, the tracer and the scheduler in
+    place, must give exactly what it gives without them.  Otherwise the
+    simulator itself - not the interleaving - changed the behaviour and the
+    finding must not be reported as a violation."""
+    fs = ctx["fs"]
+    for t, prog in enumerate(case["threads"]):
+        plain = fs.reference(("solo", _tup(prog)))["results"]
+        opl = tuple(tuple([0] + list(o[1:])) for o in case.get("oplines", []) if o[0] == t)
+        traced_ = fs.reference(("solo_traced", _tup(prog), opl))["results"]
+        if plain != traced_:
+            return (f"thread {t}'s program gives a different result alone under the "
+                    f"simulator's instrumentation than alone without it: the recording "
+                    f"containers / tracer change sequential behaviour")
+    return None
 
 
 def coverage(merged, tier):
